@@ -14,6 +14,15 @@ dynamically, every schedule on a fresh database copy, every complete schedule ru
 required).  Oracle (per complete schedule): all N constructors returned, the N session ids are pairwise distinct and
 distinct from the pre-existing ids, and table `session` has exactly N new rows (old rows kept).
 
+Second initial state ('released'): a database in the layout released androguard has created so far, built by this check
+with fixed DDL (RELEASED_DDL: table session(id), WAL) and two old rows - it does not follow the code under test.  There
+the implementation may have to change the schema first, so the prologue (which reflects the schema) is a step of its own
+(eager start) and CREATE/ALTER/DROP statements naming table session are scheduling points ('S').  All interleavings for
+N=2 (N=3 in the thorough tier), same oracle, keys "N=<n>:released-layout:<class>".
+
+Observations are free of wall-clock values: statement parameters are reported as integers (ids) or type names only,
+exception messages are not compared between the two executions of a schedule.
+
 TLC cross-check: the model is selected by the OBSERVED shape of the implementation (one sequential probe run): one
 insert per constructor -> models/SessionIdsAtomic.tla (repaired protocol), read then one-parameter insert ->
 models/SessionIds.tla (two-step protocol; id rule 'count' or 'max' read off the probe), anything else -> no model, a
@@ -34,7 +43,9 @@ PROPERTY = "C36"
 LEVEL = "model_checking"
 SERIAL = True
 RULE = ("every interleaving of the session-table statements (scheduling points, discovered dynamically) of N=2 and N=3 "
-        "real Session() constructors in separate OS processes, each on a fresh copy of a warmed-up SQLite database; "
+        "real Session() constructors in separate OS processes, each on a fresh copy of a warmed-up SQLite database, and "
+        "(N=2; N=3 thorough) on a fresh copy of a database in the released layout built with fixed DDL where prologue and "
+        "schema changes on the table are steps too; "
         "non-trivial = a schedule in which at least two constructors overlap; distinct by construction (DFS over "
         "choice sequences)")
 ASSUMPTIONS = [
@@ -71,7 +82,9 @@ TLC_TIMEOUT = 300
 
 def space(ctx):
     return {"N": [2, 3], "scheduling_points": "every SQL statement on rows of table 'session' (discovered at run time)",
-            "pre_existing_sessions": 1, "horizon": {"points_per_worker": 32, "schedule_runs": 20000, "tlc_paths": MAX_TLC_PATHS},
+            "pre_existing_sessions": 1,
+            "initial_states": {"warmed": "created by Session() of the code under test, N=2,3",
+                               "released": "fixed DDL %r, rows %r, N=2%s" % (RELEASED_DDL[1], RELEASED_ROWS, ",3" if ctx.thorough else "")}, "horizon": {"points_per_worker": 32, "schedule_runs": 20000, "tlc_paths": MAX_TLC_PATHS},
             "tlc": {"N": TLC_N_THOROUGH if ctx.thorough else TLC_N_QUICK,
                     "models": {"one insert per constructor": "SessionIdsAtomic", "read then one-parameter insert": "SessionIds"},
                     "paths_replayed": "all" if ctx.thorough else "all if <= %d per N" % QUICK_TLC_MAX_PATHS}}
@@ -81,13 +94,15 @@ def space(ctx):
 # worker side (imported inside the worker processes by mc/sched.py)
 # =====================================================================================================
 _TOK = re.compile(r"""'(?:[^']|'')*'|"([^"]*)"|`([^`]*)`|\[([^\]]*)\]|([A-Za-z_][A-Za-z0-9_$]*)""")
-_NOT_POINTS = {"PRAGMA", "CREATE", "ALTER", "DROP", "BEGIN", "COMMIT", "END", "ROLLBACK", "SAVEPOINT", "RELEASE",
+_NOT_POINTS = {"PRAGMA", "BEGIN", "COMMIT", "END", "ROLLBACK", "SAVEPOINT", "RELEASE",
                "ATTACH", "DETACH", "VACUUM", "ANALYZE", "REINDEX", "EXPLAIN"}
+_SCHEMA_VERBS = {"CREATE", "ALTER", "DROP"}
 _SCHEMA_TABLES = {"sqlite_master", "sqlite_temp_master", "sqlite_schema", "sqlite_temp_schema", "sqlite_sequence"}
 
 
 def classify(sql):
-    """None, or the kind of a statement that reads ('R') / writes ('W' insert, 'U' update, 'D' delete) rows of `session`."""
+    """None, or the kind of a statement on table `session`: reads rows ('R'), writes rows ('W' insert, 'U' update,
+    'D' delete), changes its schema ('S': CREATE / ALTER / DROP naming the table)."""
     idents = []
     for m in _TOK.finditer(sql):
         t = m.group(1) or m.group(2) or m.group(3) or m.group(4)
@@ -101,6 +116,8 @@ def classify(sql):
     low = [t.lower() for t in idents]
     if "session" not in low or _SCHEMA_TABLES & set(low):
         return None
+    if first in _SCHEMA_VERBS:
+        return "S"
     up = set(t.upper() for t in idents)
     if first == "SELECT" or (first == "WITH" and not up & {"INSERT", "UPDATE", "DELETE", "REPLACE"}):
         return "R"
@@ -122,6 +139,18 @@ def _jsonable(x):
         return [_jsonable(v) for v in x]
     if isinstance(x, dict):
         return {str(k): _jsonable(v) for k, v in sorted(x.items(), key=lambda kv: str(kv[0]))}
+    return "<%s>" % type(x).__name__
+
+
+def _ids_only(x):
+    """Statement parameters as reported to the controller: integers (ids) are kept, every other value is replaced by
+    its type name - strings/floats may be wall-clock values the implementation stores (e.g. a creation timestamp)."""
+    if x is None or isinstance(x, (bool, int)):
+        return x
+    if isinstance(x, (list, tuple)):
+        return [_ids_only(v) for v in x]
+    if isinstance(x, dict):
+        return {str(k): _ids_only(v) for k, v in sorted(x.items(), key=lambda kv: str(kv[0]))}
     return "<%s>" % type(x).__name__
 
 
@@ -183,7 +212,7 @@ def wk_install(api):
     def _before(conn, cursor, statement, parameters, context, executemany):   # noqa
         k = classify(statement) if _ARMED else None
         if k:
-            api.point(k, {"sql": " ".join(statement.split())[:120], "params": _jsonable(parameters)})
+            api.point(k, {"sql": " ".join(statement.split())[:120], "params": _ids_only(parameters)})
 
     @event.listens_for(Engine, "handle_error")
     def _on_error(ectx):                                   # noqa
@@ -230,28 +259,19 @@ def wk_reset():
 # =====================================================================================================
 # controller side
 # =====================================================================================================
-class Env:
-    """Pool of controller groups + the warmed-up template database."""
+# The layout androguard/session.py has created so far (read off a pristine warm-up once, then frozen here so that it
+# does NOT follow the code under test): table `session` with the single column `id`; dataset switches the file to WAL.
+# History: two sessions written by released code (ids counted from 0).
+RELEASED_DDL = ["PRAGMA journal_mode=WAL",
+                "CREATE TABLE session (\n\tid INTEGER NOT NULL, \n\tPRIMARY KEY (id)\n)"]
+RELEASED_ROWS = [0, 1]
 
-    def __init__(self, ctx, ngroups, size=3):
-        from mc import sched
-        self.sched = sched
-        self.pool = sched.Pool(ngroups, size, ctx.repo, TASK)
-        try:
-            self.template = os.path.join(self.pool.root, "template")
-            os.makedirs(self.template)
-            g = self.pool.groups[0]
-            ev = g.call(0, {"db_url": "sqlite:///%s/s.db" % self.template})
-            if ev["ev"] != "done":
-                raise sched.SchedError("warm-up Session() failed: %r" % (ev,))
-            g.reset([0])
-            self.pre = _read_rows(os.path.join(self.template, "s.db"))
-            if not isinstance(self.pre, list) or len(self.pre) != 1:
-                raise sched.SchedError("warm-up left rows %r in table session (expected one)" % (self.pre,))
-            self.files = sorted(os.listdir(self.template))
-        except BaseException:
-            self.pool.close()
-            raise
+
+class Init:
+    """One initial state of the exploration: a template database directory copied afresh for every schedule."""
+    def __init__(self, name, template, pre, lazy):
+        self.name, self.template, self.pre, self.lazy = name, template, pre, lazy
+        self.files = sorted(os.listdir(template))
 
     def fresh(self, group):
         for f in os.listdir(group.dir):
@@ -259,6 +279,49 @@ class Env:
         for f in self.files:
             shutil.copyfile(os.path.join(self.template, f), os.path.join(group.dir, f))
         return {"db_url": "sqlite:///%s/s.db" % group.dir}
+
+
+class Env:
+    """Pool of controller groups + the initial states:
+    'warmed'   a database created by one Session() of the code under test (lazy first step);
+    'released' a database in the released layout built by this check with fixed DDL (RELEASED_DDL), where the code under
+               test may have to change the schema first: the prologue (which reflects the schema) is a step of its own
+               and CREATE/ALTER/DROP on table session are scheduling points."""
+
+    def __init__(self, ctx, ngroups, size=3):
+        from mc import sched
+        self.sched = sched
+        self.pool = sched.Pool(ngroups, size, ctx.repo, TASK)
+        try:
+            t = os.path.join(self.pool.root, "template")
+            os.makedirs(t)
+            g = self.pool.groups[0]
+            ev = g.call(0, {"db_url": "sqlite:///%s/s.db" % t})
+            if ev["ev"] != "done":
+                raise sched.SchedError("warm-up Session() failed: %r" % (ev,))
+            g.reset([0])
+            pre = _read_rows(os.path.join(t, "s.db"))
+            if not isinstance(pre, list) or len(pre) != 1:
+                raise sched.SchedError("warm-up left rows %r in table session (expected one)" % (pre,))
+            t2 = os.path.join(self.pool.root, "template_released")
+            os.makedirs(t2)
+            con = sqlite3.connect(os.path.join(t2, "s.db"), isolation_level=None)
+            try:
+                for stmt in RELEASED_DDL:
+                    con.execute(stmt).fetchall()
+                for i in RELEASED_ROWS:
+                    con.execute("INSERT INTO session (id) VALUES (?)", (i,))
+            finally:
+                con.close()
+            self.inits = {"warmed": Init("warmed", t, pre, True),
+                          "released": Init("released", t2, list(RELEASED_ROWS), False)}
+            if _read_rows(os.path.join(t2, "s.db")) != RELEASED_ROWS:
+                raise sched.SchedError("released-layout template not built as intended")
+            self.pre = pre
+            self.fresh = self.inits["warmed"].fresh
+        except BaseException:
+            self.pool.close()
+            raise
 
     @staticmethod
     def observe(group):
@@ -299,11 +362,12 @@ def _close_env():
 
 # ---- describing and judging one executed schedule -----------------------------------------------------
 def step_kinds(step):
+    """Statements on table session executed in this step ('-' = none: the prologue step of an eagerly started worker)."""
     return "".join(k for k, _ in step.ev.get("passed", ())) or "-"
 
 
 def schedule_text(run):
-    return " ".join("%s%d" % (step_kinds(s), s.w + 1) for s in run.steps)
+    return " ".join("%s%d" % (step_kinds(s).replace("-", "B"), s.w + 1) for s in run.steps)     # B = prologue only
 
 
 def shape_class(run):
@@ -319,7 +383,7 @@ def shape_class(run):
             s = run.steps[d]
             if s.w != w:
                 overlap = True
-                if set(step_kinds(s)) & set("WUD"):
+                if set(step_kinds(s)) & set("WUDS"):
                     write_inside = True
     if not overlap:
         return "sequential"
@@ -400,15 +464,20 @@ def sample_of(n, run, verdict):
 
 # ---- direct exploration -------------------------------------------------------------------------------
 def shards(ctx):
-    return [("explore", 2), ("explore", 3)] + [("tlc", n) for n in (TLC_N_THOROUGH if ctx.thorough else TLC_N_QUICK)]
+    return ([("explore", 2), ("explore", 3), ("released", 2)] + ([("released", 3)] if ctx.thorough else [])
+            + [("tlc", n) for n in (TLC_N_THOROUGH if ctx.thorough else TLC_N_QUICK)])
 
 
-def run_explore(ctx, n):
+def run_explore(ctx, n, init_name="warmed"):
     env = _env(ctx)
     acc = Acc()
-    ex = env.sched.explore(env.pool, n, env.fresh, env.observe, rerun=True)
+    init = env.inits[init_name]
+    pre = init.pre
+    tag = "" if init_name == "warmed" else init_name + "_"           # counters
+    ktag = "" if init_name == "warmed" else init_name + "-layout:"   # violation keys
+    ex = env.sched.explore(env.pool, n, init.fresh, env.observe, rerun=True, lazy=init.lazy)
     for e in ex.errors:
-        acc.harness_error("N=%d: %s" % (n, e))
+        acc.harness_error("%sN=%d: %s" % (ktag, n, e))
     if ex.capped:
         acc.capped = ex.capped
     edges = set()
@@ -417,14 +486,14 @@ def run_explore(ctx, n):
     bad_sampled = False
     for i, sched in enumerate(sorted(ex.complete)):
         run = ex.complete[sched]
-        verdict = judge(n, run, env.pre)
+        verdict = judge(n, run, pre)
         cls = shape_class(run)
-        acc.case(nontrivial=(n, sched) if cls != "sequential" else None, outcome=outcome_of(n, run))
+        acc.case(nontrivial=(init_name, n, sched) if cls != "sequential" else None, outcome=(init_name, outcome_of(n, run)))
         acc.traces += 1
         acc.transitions += len(run.steps)
         st, ed = states_of(n, run)
         for x in st:
-            acc.state((n, x))
+            acc.state((init_name, n, x))
         edges.update(ed)
         per = {}
         for s in run.steps:
@@ -433,31 +502,33 @@ def run_explore(ctx, n):
         if len(per) < n:
             points.add(0)
         if verdict is not None:
-            acc.violation("N=%d:%s" % (n, cls), {"n": n, "schedule": [w + 1 for w in sched], "text": schedule_text(run)}, verdict)
+            acc.violation("N=%d:%s%s" % (n, ktag, cls),
+                          {"n": n, "init": init_name, "schedule": [w + 1 for w in sched], "text": schedule_text(run)},
+                          ("initial state: database in the released layout (fixed DDL, rows %r). " % pre if ktag else "") + verdict)
         if i == 0 or i == pick or (verdict is not None and not bad_sampled):
-            acc.sample(sample_of(n, run, verdict))
+            acc.sample(dict(sample_of(n, run, verdict), init=init_name))
             bad_sampled = bad_sampled or verdict is not None
     for sched in sorted(ex.infeasible):
         run = ex.infeasible[sched]
         acc.transitions += len(run.steps)
         st, ed = states_of(n, run)
         for x in st[:-1]:
-            acc.state((n, x))
+            acc.state((init_name, n, x))
     for prefix in ex.deadlocks():
-        acc.violation("N=%d:deadlock" % n, {"n": n, "schedule": [w + 1 for w in prefix], "expect": "deadlock"},
+        acc.violation("N=%d:%sdeadlock" % (n, ktag), {"n": n, "init": init_name, "schedule": [w + 1 for w in prefix], "expect": "deadlock"},
                       "N=%d: after schedule prefix %r every unfinished constructor is blocked by a lock held by another "
                       "paused constructor: none can complete" % (n, [w + 1 for w in prefix]))
-    acc.count("schedules_N%d" % n, len(ex.complete))
+    acc.count("schedules_%sN%d" % (tag, n), len(ex.complete))
     acc.count("infeasible_pruned", len(ex.infeasible))
     acc.count("determinism_reruns", ex.reruns)
-    acc.count("distinct_states_N%d" % n, len(set(x for r in ex.complete.values() for x in states_of(n, r)[0])))
-    acc.count("distinct_transitions_N%d" % n, len(edges))
-    acc.count("schedules_violating_N%d" % n, sum(1 for r in ex.complete.values() if judge(n, r, env.pre) is not None))
-    acc.note("N=%d: scheduling points per constructor observed: %s" % (n, sorted(points)))
+    acc.count("distinct_states_%sN%d" % (tag, n), len(set(x for r in ex.complete.values() for x in states_of(n, r)[0])))
+    acc.count("distinct_transitions_%sN%d" % (tag, n), len(edges))
+    acc.count("schedules_violating_%sN%d" % (tag, n), sum(1 for r in ex.complete.values() if judge(n, r, pre) is not None))
+    acc.note("%sN=%d: scheduling points per constructor observed: %s" % (ktag, n, sorted(points)))
     if points == {0}:
-        acc.harness_error("N=%d: no statement on table session was seen in any constructor: the SQLAlchemy hook is dead" % n)
+        acc.harness_error(ktag + "N=%d: no statement on table session was seen in any constructor: the SQLAlchemy hook is dead" % n)
     if not ex.complete and not ex.deadlocks() and not ex.errors:
-        acc.harness_error("N=%d: no complete schedule exists (every schedule pruned as infeasible)" % n)
+        acc.harness_error(ktag + "N=%d: no complete schedule exists (every schedule pruned as infeasible)" % n)
     return acc
 
 
@@ -751,6 +822,8 @@ def run_shard(ctx, shard):
     try:
         if shard[0] == "explore":
             return run_explore(ctx, shard[1])
+        if shard[0] == "released":
+            return run_explore(ctx, shard[1], "released")
         return run_tlc_shard(ctx, shard[1])
     except BaseException:
         _close_env()
@@ -765,6 +838,12 @@ def finalize(ctx, acc):
             acc.harness_error("N=2: fewer than two complete schedules (%d): the space degenerated" % s2)
         if s3 < 6 and not any(k.startswith("N=3:deadlock") for k in acc.viol):
             acc.harness_error("N=3: fewer than six complete schedules (%d): the space degenerated" % s3)
+        r2 = acc.extra.get("schedules_released_N2", 0)
+        if r2 < 2 and not any(k.startswith("N=2:released-layout:deadlock") for k in acc.viol):
+            acc.harness_error("released layout, N=2: fewer than two complete schedules (%d): the space degenerated" % r2)
+    acc.note("initial states: 'warmed' = database created by one Session() of the code under test (TLC cross-check runs on "
+             "this one); 'released' = database built by the check with the fixed released DDL (table session(id), rows %r), "
+             "prologue is a step of its own and CREATE/ALTER/DROP on session are scheduling points" % (RELEASED_ROWS,))
     if acc.extra.get("tlc_paths_replayed", 0) and acc.extra.get("tlc_paths_conform", 0) == acc.extra.get("tlc_paths_replayed"):
         for n in (2, 3):
             a, b = acc.extra.get("distinct_states_N%d" % n), acc.extra.get("tlc_states_N%d" % n)
@@ -780,21 +859,23 @@ def replay(ctx, w):
     env = Env(ctx, 1, size=n)
     try:
         g = env.pool.groups[0]
+        init = env.inits[w.get("init", "warmed")]
+        kw = dict(lazy=init.lazy)
         if w.get("expect") == "deadlock":
-            base = g.run(n, prefix, env.fresh, env.observe, strict=True)
+            base = g.run(n, prefix, init.fresh, env.observe, strict=True, **kw)
             if base.status != "incomplete":
                 return None
             el = [x for x in range(n) if not (base.final[x])]
             for x in el:
-                r = g.run(n, prefix + (x,), env.fresh, env.observe, strict=True)
+                r = g.run(n, prefix + (x,), init.fresh, env.observe, strict=True, **kw)
                 if r.status != "infeasible":
                     return None
             return "N=%d: after %r every unfinished constructor is blocked by a paused one" % (n, list(w["schedule"]))
-        run = g.run(n, prefix, env.fresh, env.observe, strict=False)
+        run = g.run(n, prefix, init.fresh, env.observe, strict=False, **kw)
         if run.status != "complete":
             raise sched.SchedError("witness schedule %r cannot be executed: %s" % (w["schedule"], run.status))
         if run.schedule[:len(prefix)] != prefix:
             raise sched.SchedError("witness schedule %r was not followed" % (w["schedule"],))
-        return judge(n, run, env.pre)
+        return judge(n, run, init.pre)
     finally:
         env.close()
